@@ -163,7 +163,7 @@ let ghost s0 = stack@;"""), where='after')
     else:
         sn.insert_at(r'collect_last_binop_on_stack\(&mut stack\);', F("""proof { lemma_collected(s0, stack@, FLOOR); }"""), where='after', occurrence=0)
     # end of the reduce loop body: re-establish the shape fact for the next `stack.get(len - 2)`
-    sn.insert_at(r'if stack\.len\(\) (?:<= 1|< 2) \{\s*\n\s*break;\s*\n\s*\}(?!\s*else)', F("""proof { assert(op_ok(stack@, stack.len() - 2, FLOOR)); }"""), where='after', occurrence=0)
+    sn.insert_at(r'if stack\.len\(\) <=? \d+ \{\s*\n\s*break;\s*\n\s*\}(?!\s*else)', F("""proof { assert(op_ok(stack@, stack.len() - 2, FLOOR)); }"""), where='after', occurrence=0)
     sn.insert_at(r'stack\.push\(ExprOrOp::Op\(self\.lpop\(\)\)\);', """let ghost s1 = stack@;
 let ghost t0 = toks(*self);""", where='before')
     sn.insert_at(r'stack\.push\(ExprOrOp::Op\(self\.lpop\(\)\)\);', """let ghost t1 = toks(*self);""", where='after')
